@@ -758,7 +758,8 @@ func (hs *HandshakeState) writePQClientRequestHidden(b []byte, serverKEMPublicKe
 	pos += MacLen
 
 	// Timestamp
-	now := verifhook.Int64("transport.hidden-request.timestamp", time.Now().Unix())
+	now := time.Now().Unix()
+	now = verifhook.Int64("transport.hidden-request.timestamp", now)
 	timeBytes := make([]byte, 8)
 	binary.BigEndian.PutUint64(timeBytes, uint64(now))
 	hs.duplex.Encrypt(b, timeBytes[:])
